@@ -280,6 +280,7 @@ def rule_runnable_exists(ctx):
     c13.rule_union_member(ctx)
     c13.rule_cancel_refcount(ctx)
     c13.rule_state_updates(ctx)
+    c13.rule_waker_vtable(ctx)
 
 
 RULES.append(("C19.h", "the runnable_exists predicate covers the wind-down phase (else a handle released while a cancelled poll winds down frees the task twice)", rule_runnable_exists))
